@@ -184,10 +184,10 @@ def r3_space_leaf(w):
     b = bs[0]
     for nl, want in ((True, 'hardline'), (False, 'space')):
         i = [j for j in range(1, b.arg_count + 1) if grammar.ast_type_name(b.locals[j]['ty'])][0]
-        res = run_function(w, b, {i: Node('parent', 'Space', nl)})
+        res = run_function(w, b, {i: Node('parent', 'Space', nl)}, converter_pred=lambda tb: False)       # helpers it delegates to are evaluated with it
         outs = set()
         for result, events, assumed in res or []:
-            outs.add(tuple(a[0] for a in result.flat()) if isinstance(result, Doc) else ('?',))
+            outs.add(tuple(a[0] for a in result.flat() if a[0] != 'nil') if isinstance(result, Doc) else ('?',))
         cons = {'converter': 'convert_space', 'linebreak': nl, 'result': sorted(outs)}
         if outs == {(want,)}:
             r.ok(cons, 'exactly %s' % want)
